@@ -5,6 +5,7 @@ package main
 // caret rendering of the error (node.VerifReportError).
 
 import (
+	"encoding/hex"
 	"bufio"
 	"encoding/json"
 	"fmt"
@@ -22,6 +23,7 @@ type frontIn struct {
 	Src     string `json:"src"`
 	WantAst bool   `json:"wantast"`
 	NoLex   bool   `json:"nolex"`
+	Hex     string `json:"hex"` // the input as hexadecimal bytes (for inputs that are not valid UTF-8 and so cannot travel as JSON text)
 }
 
 // lastNexts is the number of TLexer.Next calls (replays included) the last guarded function made: the work of a parse.
@@ -76,6 +78,14 @@ func cmdFront() {
 			os.Exit(2)
 		}
 		src := fi.Src
+		if fi.Hex != "" {
+			b, err := hex.DecodeString(fi.Hex)
+			if err != nil {
+				fmt.Fprintln(os.Stderr, "vh front: bad hex:", err)
+				os.Exit(2)
+			}
+			src = string(b)
+		}
 		budget := 4*len(src) + 64
 		res := M{"id": fi.ID}
 		if !fi.NoLex {
